@@ -29,6 +29,21 @@ def idx(n):
 
 
 @prim
+def height(n):
+    """Height of the subtree at n (0 for a leaf): the termination measure of recursive descents."""
+    kids = getattr(n, 'contents', None)
+    if not kids or isinstance(n, str):
+        return 0
+    return 1 + max(height(c) for c in kids)
+
+
+@prim
+def bidi_class(c):
+    import unicodedata
+    return unicodedata.bidirectional(c)
+
+
+@prim
 def depth(n):
     d = 0
     while n is not None and n.parent is not None:
